@@ -149,6 +149,10 @@ static ULeaf mkLeaf(int i) { ULeaf l; l.v = i; l.s = "leaf " + std::to_string(i)
 static UMid mkMid(int i) { UMid m; m.a = mkLeaf(i); m.l = {mkLeaf(i + 1), mkLeaf(i + 2)}; m.m = {{"k1", mkLeaf(i + 3)}, {"k2", mkLeaf(i + 4)}}; m.n = i; return m; }
 static UTop mkTop() { UTop t; t.x = mkMid(10); t.ms = {mkMid(20), mkMid(30)}; t.tail = 99; return t; }
 
+struct NumIn { double y = 2.5; int n = 1; template <class A> void Serialize(A& ar) { ar << BitSerializer::KeyValue("y", y) << BitSerializer::KeyValue("n", n); } };
+struct NumDoc { double x = 1.5; std::vector<double> v{1.0, 2.0, 3.0}; NumIn in; std::map<std::string, double> m{{"k1", 1.0}, {"k2", 2.0}}; int tail = 9;
+	template <class A> void Serialize(A& ar) { ar << BitSerializer::KeyValue("x", x) << BitSerializer::KeyValue("v", v) << BitSerializer::KeyValue("in", in) << BitSerializer::KeyValue("m", m) << BitSerializer::KeyValue("tail", tail); } };
+
 // Allocations that belong to lazily initialised statics (first use of an enum registry, locale facets, ...)
 // are not leaks: a run that reports live blocks is repeated once and only the repeated run is judged.
 template <class TA, class T> static Res ledgerTypedSave(T& obj, bool stream, long& leaked) {
@@ -360,10 +364,10 @@ static void body(bsx::Ctx& c) {
 		return;
 	}
 	// ---- (d) mid-operation library errors
-	int kind = c.choose(6, "error_kind");
+	int kind = c.choose(7, "error_kind");
 	int arch = c.choose(4, "archive");
 	bool stream = c.flag("stream");
-	static const char* kindName[] = {"csv_or_rows_width_mismatch", "unregistered_enum_on_save", "fixed_array_size_mismatch", "unknown_enum_text_on_load", "validation_cap_in_nested_scope", "user_type_throws"};
+	static const char* kindName[] = {"csv_or_rows_width_mismatch", "unregistered_enum_on_save", "fixed_array_size_mismatch", "unknown_enum_text_on_load", "validation_cap_in_nested_scope", "user_type_throws", "unrepresentable_value_on_save"};
 	std::string sig = std::string("C20/mid_operation_error/") + kindName[kind] + "/" + archName(arch) + (stream ? "/stream" : "/mem");
 	long leaked = 0; Res r;
 	if (kind == 0) {
@@ -399,6 +403,23 @@ static void body(bsx::Ctx& c) {
 		r = withArch(arch, [&](auto tag) { using A = typename decltype(tag)::type; return ledgerTypedLoad<A>(rows, bytes, stream, lib::opts(), leaked); });
 		c.nontrivial(sig + std::to_string(pos));
 		judgeCommon(c, sig, r, leaked, true, "row=" + std::to_string(pos));
+	} else if (kind == 6) {
+		// a value the format cannot represent (JSON: NaN, +-infinity) at every position of a nested structure, every output configuration
+		if (arch != tl::Json) { c.outcome("n/a"); return; }
+		int what = c.choose(3, "value"); int pos = c.choose(4, "position"); int fmt = c.choose(2, "formatted"); int enc = stream ? c.choose(3, "encoding") : 0;
+		static const char* whatName[] = {"nan", "pos_inf", "neg_inf"}; static const char* posName[] = {"root_member", "vector_element", "nested_member", "map_value"};
+		sig += std::string("/") + whatName[what] + "/" + posName[pos] + (fmt ? "/pretty" : "/compact") + (enc == 1 ? "/utf16le" : enc == 2 ? "/utf32be" : "");
+		c.describe(sig, "JSON save of a structure holding the value");
+		const double bad = what == 0 ? std::nan("") : what == 1 ? std::numeric_limits<double>::infinity() : -std::numeric_limits<double>::infinity();
+		auto o = lib::opts(); o.formatOptions.enableFormat = fmt == 1; if (enc == 1) o.streamOptions.encoding = BitSerializer::Convert::Utf::UtfType::Utf16le; if (enc == 2) o.streamOptions.encoding = BitSerializer::Convert::Utf::UtfType::Utf32be;
+		auto& al = env::alloc();
+		{ NumDoc warm; std::string w = BitSerializer::SaveObject<tl::JS>(warm); (void)w; }   // lazily initialised statics
+		{ env::AllocScope ledger(-1);
+			{ NumDoc d; if (pos == 0) d.x = bad; else if (pos == 1) d.v[1] = bad; else if (pos == 2) d.in.y = bad; else d.m["k2"] = bad;
+			  r = guarded([&] { std::string out; if (stream) { std::ostringstream os; BitSerializer::SaveObject<tl::JS>(d, os, o); } else BitSerializer::SaveObject<tl::JS>(d, out, o); }); }
+			leaked = al.live; }
+		c.nontrivial(sig);
+		judgeCommon(c, sig, r, leaked, true, "value cannot be written");
 	} else if (kind == 5) {
 		// the k-th Serialize() call of a user type throws while saving / loading a nested structure (CSV: a vector of rows)
 		int save = c.choose(2, "save"); int ek = c.choose(3, "exception_type");
